@@ -56,10 +56,17 @@ def main():
   for x, y in itertools.product(d0, repeat=2):
     d1.append(conditions.And(x, y))
     d1.append(conditions.Or(x, y))
-  d1 = list(dict.fromkeys(d1))
+  # de-duplicate by printed form, NOT by ==/hash: equality of conditions is part of what is being tested
+  d1 = list({(type(x).__name__, repr(x)): x for x in d1}.values())
   counts['cond_terms'] = len(d1)
   tier = payload.get('tier', 'quick')
-  pool = d1 if tier == 'thorough' else d1[:40]
+  # quick: all terms of depth 0 and every third composite (And and Or over the same operands are kept together)
+  comp = [x for x in d1 if x not in d0 and type(x).__name__ in ('_And', '_Or')]
+  byops = {}
+  for x in comp:
+    byops.setdefault(repr(sorted(map(repr, x.conditions))), []).append(x)
+  groups = list(byops.values())
+  pool = d1 if tier == 'thorough' else [x for x in d1 if x not in comp] + [x for g in groups[::3] for x in g]
   for x in pool:
     r = conditions.Not(x)
     for s in VALS:
